@@ -674,7 +674,8 @@ class BulkIndex(Runner):
         """
         error_descriptions = []
         is_truncated = False
-        for count, error_detail in enumerate(sorted(error_details)):
+        # the reason may be missing (None) for some items and present for others
+        for count, error_detail in enumerate(sorted(error_details, key=lambda detail: (detail[0], detail[1] or ""))):
             status, reason = error_detail
             if count < 5:
                 if reason:
